@@ -592,9 +592,14 @@ example : ∃ r, Runs exEnvId (.forEach ⟨false, .default, .named "always"⟩ (
 
 -- results equal to the sub-circuits handed out (hypothesis `hid` of `C11_foreach_identity_results`)
 example : ∃ (jobs : List BlockJob) (rs : List Res), jobs.length = 1 ∧ rs.length = jobs.length ∧
-    firstRaised rs = none ∧ ∀ jr ∈ jobs.zip rs, jr.2.st.circ = subCircuit exBl jr.1.op :=
+    firstRaised rs = none ∧ (∀ jr ∈ jobs.zip rs, jr.2.st.circ = subCircuit exBl jr.1.op) ∧
+    exCircB.Inv ∧ (jobs.map (fun j => (j.cycle, j.op))).Sublist exCircB.iterCyc ∧
+    exWB.blocks.KeysNodup ∧ exWB.blocks.Extends exBl ∧ NewAbove exWB.blocks exBl ∧
+    (∀ x ∈ exCircB.ops, exBl.body? x.gid = none → x.gid < 1000) :=
   ⟨[⟨0, 0, exBlockOp, subCircuit exBl exBlockOp, PData.init exCircB⟩],
-   [⟨[], ⟨subCircuit exBl exBlockOp, PData.init exCircB⟩, exWB, .ok⟩], rfl, rfl, rfl, by simp⟩
+   [⟨[], ⟨subCircuit exBl exBlockOp, PData.init exCircB⟩, exWB, .ok⟩], rfl, rfl, rfl, by simp,
+   (invB_iff _).1 (by decide), by decide, by unfold Blocks.KeysNodup; decide,
+   Blocks.Extends.refl _, NewAbove.refl _, by decide⟩
 
 -- the error bound: E = 1/10, S = 1/5, truth = 1/4
 example : ∃ (d : PData) (S truth : ℚ), truth ≤ d.error + S ∧ 0 < d.error * S :=
